@@ -334,6 +334,84 @@ Theorem C13_cdf_gauss : forall (erfR : R -> R),
 Proof. exact gauss_cdf_props. Qed.
 Print Assumptions C13_cdf_gauss.
 
+(* ================================================================ audit follow-up *)
+(* the point profile is 1 exactly where BOTH coordinates match (kernel pt_call), and a model applies
+   its spatial profile only when both ra and dec are given (kernels ffm_if_s / _e / _t) *)
+Theorem C13_optional_coords : forall (erfR : R -> R),
+  (forall ra dec r d, s_call (RNum erfR) (Point r d) ra dec
+       = if Req_EM_T ra r then if Req_EM_T dec d then 1 else 0 else 0)
+  /\ (forall s l ra dec E t eu tu,
+       ffm_call2 (RNum erfR) s l ra dec E t eu tu =
+         ffm_call (RNum erfR) s l (match ra, dec with Some a, Some b => Some (a, b) | _, _ => None end) E t eu tu).
+Proof. intros erfR. exact (conj (s_call_point erfR) (ffm_call2_spec erfR)). Qed.
+Print Assumptions C13_optional_coords.
+
+(* a MODEL updated through set_params (FactorizedFluxModel / PointlikeFFM / SteadyPointlikeFFM are all
+   this object in the store): afterwards it consists of Phi0 and its three profiles each updated with
+   the same dictionary; point and unity-time profiles updated = constructed *)
+Theorem C13_update_model : forall (erfR : R -> R),
+  (forall s l pd Phi0 ls le lt sp ep tp,
+     nth_error s l = Some (OM Phi0 ls le lt) ->
+     get_s s ls = Ok sp -> get_e s le = Ok ep -> get_t s lt = Ok tp ->
+     exists s' b, obj_set_params (RNum erfR) s l pd = Ok (s', b)
+       /\ view_of s' l = Ok (VM (pick pd nPhi0 Phi0) (fst (s_set_params (RNum erfR) pd sp))
+                                (fst (e_set_params (RNum erfR) pd ep)) (fst (t_set_params (RNum erfR) pd tp))))
+  /\ (forall ra dec pd, fst (s_set_params (RNum erfR) pd (Point ra dec)) = Point (pick pd nRa ra) (pick pd nDec dec))
+  /\ (forall tu ts te pd, fst (t_set_params (RNum erfR) pd (UnityT tu ts te))
+        = UnityT tu (pick pd nTstart ts) (pick pd nTstop te)).
+Proof. intros erfR. exact (conj (ffm_update erfR) (conj (pt_set_params erfR) (ut_set_params erfR))). Qed.
+Print Assumptions C13_update_model.
+
+(* Gaussian constructor and histories on the code's domain 0 < tol <= 1 (there the radicand is
+   non-negative: the window is real, not an artefact of Coq's total sqrt / ln) *)
+Theorem C13_gauss_guarded : forall (erfR : R -> R),
+  (forall tu t0 sg tol, 0 < tol <= 1 ->
+     0 <= - 2 * (sg * sg) * ln tol
+     /\ gauss_new (RNum erfR) tu t0 sg tol
+        = Gauss tu (t0 - sqrt (- 2 * (sg * sg) * ln tol)) (t0 + sqrt (- 2 * (sg * sg) * ln tol)) sg tol)
+  /\ (forall ops tu t0 sg tol, 0 < tol <= 1 -> List.Forall par_op ops ->
+     t_run (RNum erfR) ops (gauss_new (RNum erfR) tu t0 sg tol) =
+       gauss_new (RNum erfR) tu (fst (fold_left (gauss_spec tu) ops (t0, sg)))
+                 (snd (fold_left (gauss_spec tu) ops (t0, sg))) tol).
+Proof.
+  intros erfR.
+  exact (conj (gauss_new_guarded erfR) (fun ops tu t0 sg tol _ => gauss_update erfR ops tu t0 sg tol)).
+Qed.
+Print Assumptions C13_gauss_guarded.
+
+(* MathFunction.copy: `f = deepcopy(self)` (kernel mf_copy pins the call), and with newparams the
+   copy — not the original — receives set_params (kernel mf_copy_with) *)
+Theorem C13_copy_is_deepcopy : forall (T : Type) (N : Num T) (s : @store T) l pd,
+  step N s (OpCopy l) = (do r <- obj_copy s l; Ok (fst r))
+  /\ step N s (OpCopyWith l pd)
+     = (do r <- obj_copy s l; do r2 <- obj_set_params N (fst r) (snd r) pd; Ok (fst r2))
+  /\ (forall x, mf_copy x = x).
+Proof. intros T N s l pd. exact (conj (step_copy N s l) (conj (step_copy_with N s l pd) K_mf_copy)). Qed.
+Print Assumptions C13_copy_is_deepcopy.
+
+(* non-vacuity by instantiation: the integral theorems applied to concrete parameters *)
+Example C13_ex_pl_int : forall (erfR : R -> R),
+  is_RInt (fun E => pl_call (RNum erfR) E 100 (1 + 1 / 1000000000000)) 1 10
+          (pl_integral (RNum erfR) 100 (1 + 1 / 1000000000000) 1 10)
+  /\ is_RInt (t_call (RNum erfR) (Box 0 4 6) None) 0 5 (t_int (RNum erfR) (Box 0 4 6) None 0 5).
+Proof.
+  intros erfR. split.
+  - apply C13_pl_int; lra.
+  - apply (C13_box_int erfR 0%Z 4 6 0 5); lra.
+Qed.
+Example C13_ex_gauss_int : forall (erfR : R -> R),
+  (forall x, is_derive erfR x (2 / sqrt PI * exp (- (x * x)))) ->
+  is_RInt (t_call (RNum erfR) (Gauss 0 (-1) 1 2 (1/2)) None) (-3) (1/2)
+          (t_int (RNum erfR) (Gauss 0 (-1) 1 2 (1/2)) None (-3) (1/2)).
+Proof. intros erfR H. apply C13_gauss_int; [exact H|lra..]. Qed.
+Example C13_ex_oracle : forall (erfR : R -> R),
+  is_RInt (e_call (RNum erfR) (Cutoff 0 1 2 10) None) 1 100
+          (e_int_q (RNum erfR) (fun f a b => RInt f a b) (Cutoff 0 1 2 10) None 1 100).
+Proof.
+  intros erfR.
+  apply (proj1 (C13_numeric_int erfR (fun f a b => RInt f a b) (fun f a b _ => eq_refl))); lra.
+Qed.
+
 (* the quadrature contract is satisfiable (RInt itself), the cut-off guards are satisfiable *)
 Example C13_nonvacuous_oracle :
   (forall (f : R -> R) a b, ex_RInt f a b -> RInt f a b = RInt f a b) /\ 0 < 1 /\ 10 <> 0 /\ 0 < 1 <= 100.
